@@ -28,7 +28,7 @@ Definition sk_frac (fl : Z) : float := PrimFloat.div (f64_of_Z fl) 256%float.
 Definition sk_delay (d : Z) : Z :=
   f64_to_i64 (PrimFloat.mul (PrimFloat.div (f64_of_Z d) 65536%float) 1000000000%float).
 
-Definition fst0 := st0 float 0%float.
+Definition fst0 : st float := st0 0%float.
 Definition fstep (ssrc rate : Z) :=
-  step float sk_units sk_jitter sk_rjitter sk_frac sk_delay frac_kernel ssrc rate.
-Definition frun_all (ssrc rate : Z) := run_all float sk_units sk_jitter sk_rjitter sk_frac sk_delay frac_kernel ssrc rate.
+  step sk_units sk_jitter sk_rjitter sk_frac sk_delay frac_kernel ssrc rate.
+Definition frun_all (ssrc rate : Z) := run_all sk_units sk_jitter sk_rjitter sk_frac sk_delay frac_kernel ssrc rate.
